@@ -63,7 +63,14 @@ func BuildMsg(u *Universe, mid, role string) *fbb.Message {
 	m.AddCc(spec.Cc...)
 	m.SetSubject("subject of " + role + " " + mid)
 	m.SetBody("body of " + role + " message " + mid + "\r\nsecond line æøå\r\n")
+	if mid == "B" || mid == "C" {
+		// legal but unusual section layouts: an empty attachment in front of a non-empty one
+		m.AddFile(fbb.NewFile("empty-"+mid+".dat", nil))
+	}
 	m.AddFile(fbb.NewFile("f-"+mid+".bin", []byte{0, 1, 2, '\r', '\n', 0xff, byte(len(mid))}))
+	if mid == "C" {
+		m.AddFile(fbb.NewFile("empty-last.dat", []byte{}))
+	}
 	if spec.P2P && role == "out" {
 		m.Header.Set("X-P2POnly", "true")
 	}
